@@ -11,7 +11,9 @@ Effect: "extract method" refactorings (a prologue/epilogue moved verbatim into a
 an accessor wrapped around one atomic load) leave every rule's view of the code unchanged, and a defect hidden in a new helper is
 seen in the context of the function that calls it."""
 import copy, json, os
+import engine
 from engine import Fn, Program, callee, norm, PASSTHROUGH_CALLS
+engine_alias = engine.ALIAS_FN
 
 DEPTH = 4
 REF_PATH = os.path.join(os.path.dirname(os.path.abspath(__file__)), "reference_fns.json")
@@ -147,6 +149,38 @@ def normalise(prog, reference=None):
     for k in sorted(new):
         if k in called and k not in remaining:
             del out[k]; stats["removed"].append(k)
+    # a new function that is only ever used as a *value* (a closure replaced by a named fn and handed to a combinator, a thread
+    # spawn, a handler slot) by exactly one function is that function's closure under another syntax: give it a closure id
+    def fn_values(x, acc):
+        if isinstance(x, dict):
+            if "fn" in x and isinstance(x["fn"], dict) and "p" in x["fn"]:
+                for cid in (x["fn"].get("r"), x["fn"].get("p")):
+                    if cid and norm(cid) in new: acc.add(norm(cid))
+            for pr in (x.get("pr") or ()) if isinstance(x.get("pr"), (list, tuple)) else ():
+                if isinstance(pr, str) and norm(pr) in new: acc.add(norm(pr))       # `&named_fn` is a promoted constant
+            for v in x.values():
+                if isinstance(v, (dict, list)): fn_values(v, acc)
+        elif isinstance(x, list):
+            for v in x:
+                if isinstance(v, (dict, list)): fn_values(v, acc)
+    users = {}
+    for k, f in out.items():
+        for b in f.blocks:
+            if b.get("ghost"): continue
+            acc = set()
+            fn_values(b["st"], acc)
+            t = b["tm"]
+            if t["t"] == "call": fn_values(t["args"], acc)
+            for cid in acc:
+                if cid != k: users.setdefault(cid, set()).add(k)
+    stats["as_closure"] = []
+    for cid, us in sorted(users.items()):
+        base = set(u.split("::{closure")[0] for u in us)
+        if cid in out and cid not in remaining and cid not in called and len(base) == 1:
+            nid = "%s::{closure#fn:%s}" % (sorted(base)[0], cid.rsplit("::", 1)[-1])
+            g = out.pop(cid); g.id = nid; out[nid] = g
+            engine_alias[cid] = nid
+            stats["as_closure"].append("%s -> %s" % (cid, nid))
     np = copy.copy(prog)
     np.fns = out
     for f in out.values(): f.prog = np
